@@ -52,7 +52,7 @@ def subsample(U, k, seed):
     groups = {}
     for i, d in enumerate(U):
         key = (d["opt"], d["nl"], d["cb"][0], d["obj"], d["flt"][0], d["flt"][1], all(p == "fixed" for p in d["bp"]), "bad" in d["bp"],
-               ("narrow" in d["bp"]) and not d["sc"])
+               ("narrow" in d["bp"]) and not d["sc"], d["x0"] in ("onupper", "above", "mixed", "far"))
         groups.setdefault(key, []).append(i)
     keys = sorted(groups)
     for g in keys:
@@ -405,6 +405,8 @@ def _options(opt, nfree, sc, ref=None):
         o["maxfev"] = npt + 2
     elif opt == "fev_3npt":
         o["maxfev"] = 3 * npt
+    elif opt.startswith("fev_p"):
+        o["maxfev"] = npt + int(opt[5:])
     elif opt == "iter1":
         o["maxiter"] = 1
     elif opt == "iter2":
